@@ -166,3 +166,16 @@ Proof.
   intros H. apply Forall_forall. intros x Hx.
   destruct (In_nth l x 0 Hx) as [i [Hi <-]]. apply H; exact Hi.
 Qed.
+
+(* boolean reflection of the word-range hypothesis, to discharge it on concrete inputs *)
+Lemma in_rangeb_sound w x : in_rangeb w x = true -> in_range w x.
+Proof.
+  unfold in_rangeb, in_range. intros H. apply andb_prop in H. destruct H as [H1 H2].
+  apply Z.leb_le in H1. apply Z.ltb_lt in H2. split; assumption.
+Qed.
+
+Lemma Forall_in_rangeb w (l : list Z) : forallb (in_rangeb w) l = true -> Forall (in_range w) l.
+Proof.
+  intros H. apply Forall_forall. intros x Hx.
+  rewrite forallb_forall in H. apply in_rangeb_sound. apply H; exact Hx.
+Qed.
